@@ -597,6 +597,12 @@ def m_from_be_bytes(interp, fn, args, st, site, frame):
     return [(Adt("op:Shr", 0, (base, Const(last))), st)]
 
 
+def m_iter_chain(interp, fn, args, st, site, frame):
+    if len(args) == 2 and all(isinstance(a, Adt) and a.name.startswith("it:") for a in args):
+        return [(Adt("it:chain", 0, (args[0], args[1])), st)]
+    return None
+
+
 def m_iter_zip(interp, fn, args, st, site, frame):
     if len(args) != 2 or not (isinstance(args[0], Adt) and args[0].name.startswith("it:")):
         return None
@@ -747,6 +753,13 @@ def _it_next(it):
         if a.v >= b.v:
             return None, it
         return a, Adt(nm, 0, (Const(a.v + 1, a.ty), b))
+    if nm == "it:chain":
+        a, b = f
+        x, a2 = _it_next(a)
+        if x is not None:
+            return x, Adt(nm, 0, (a2, b))
+        y, b2 = _it_next(b)
+        return y, Adt(nm, 0, (a2, b2))
     if nm == "it:zip":
         a, b = f
         x, a2 = _it_next(a)
@@ -945,6 +958,7 @@ BASE_MODELS = [
     (r"^std::iter::Iterator::enumerate$|as std::iter::Iterator>::enumerate$", m_iter_enumerate),
     (r"^std::iter::Iterator::take$|as std::iter::Iterator>::take$", m_iter_take),
     (r"^std::iter::Iterator::zip$|as std::iter::Iterator>::zip(::<.*>)?$", m_iter_zip),
+    (r"^std::iter::Iterator::chain$|as std::iter::Iterator>::chain(::<.*>)?$", m_iter_chain),
     (r"^core::slice::<impl \[.*\]>::split_at(_mut)?$", m_split_at_concrete),
     (r"^core::slice::<impl \[.*\]>::len$", m_view_len),
     (r"^core::num::<impl u\d+>::to_be_bytes$", m_to_be_bytes),
